@@ -97,14 +97,16 @@ func init() {
 	// DirH.tla: directory handles and by-name listings
 	modules["dirh"] = func(kind string, o *Opts) engine.Adapter {
 		cfg := fsad.DConfig{AdapterName: kind, PropList: o.attr("list", "C16"), PropClosed: o.attr("closed", "C17"), PropIO: o.attr("io", "C02")}
+		full := kind
+		kind, cfg.Dir = fsad.DirOfKind(kind) // "<kind>.dot": the listed directory is called ".d"
 		switch kind {
 		case "oshp", "mntat", "mntbelow", "sub", "cache", "tar":
-			cfg.MkDirFS = fsad.ComposedDir(kind)
+			cfg.MkDirFS = fsad.ComposedDir(full)
 			if kind == "mntbelow" {
 				cfg.MountChild = fsad.ChildName(2)
 			}
 		default:
-			cfg.MkDirFS = fsad.Writable(mkfs(kind))
+			cfg.MkDirFS = fsad.WritableAt(mkfs(kind), cfg.Dir)
 		}
 		if kind == "osref" {
 			cfg.Reference = true
